@@ -189,3 +189,78 @@ let run (prop : string) (input : S.t) (observed : S.t) : S.t * string =
     (zip4 docs results befores obs);
   let verdict = match List.rev !fails with [] -> "holds" | f :: _ -> f in
   (expected, verdict)
+
+(* ---- C17: introspection ---- *)
+let rec s_jt = function
+  | INull -> S.A "null"
+  | IBool b -> S.L [S.A "b"; S.of_int (if b then 1 else 0)]
+  | IKind k -> S.L [S.A "k"; i k]
+  | IName (ns, k) -> S.L [S.A "nm"; i ns; i k]
+  | IDesc d -> S.L [S.A "d"; sdesc d]
+  | IVal v -> S.L [S.A "val"; s_cval v]
+  | ILoc l -> S.L [S.A "loc"; i l]
+  | IList l -> S.L (S.A "l" :: List.map s_jt l)
+  | ISet l -> S.L (S.A "l" :: sort_s (List.map s_jt l))
+  | IObj l -> S.L (S.A "o" :: List.map s_jt l)
+
+let project17 = function
+  | S.L [S.A "answer"; sch; S.L [S.A "errors"; nerr; _]; lk] -> S.L [S.A "answer"; sch; S.L [S.A "errors"; nerr]; lk]
+  | S.L (S.A "load-failed" :: _) -> S.L [S.A "load-failed"]
+  | x -> x
+
+let type_parts = [| "kind"; "name"; "description"; "fields"; "interfaces"; "possibleTypes"; "enumValues"; "inputFields"; "ofType" |]
+
+(* where two type records differ *)
+let type_diff e o =
+  match e, o with
+  | S.L (S.A "o" :: es), S.L (S.A "o" :: os) when List.length es = 9 && List.length os = 9 ->
+    let rec go k es os = match es, os with
+      | x :: es', y :: os' -> if S.to_string x <> S.to_string y then type_parts.(k) else go (k + 1) es' os'
+      | _ -> "shape" in
+    go 0 es os
+  | S.A "null", _ -> "unknown-name-not-null"
+  | _, S.A "null" -> "known-type-null"
+  | _ -> "shape"
+
+let run17 (input : S.t) (observed : S.t) : S.t * string =
+  let (incl, lookups, docs) = match input with
+    | S.L [S.A "intro"; _; S.L [S.A "incl"; b]; S.L (S.A "lookups" :: ns); S.L (S.A "docs" :: ds)] ->
+      (S.int b <> 0, List.map n ns,
+       List.map (function
+           | S.L (S.A "doc" :: mode :: items) -> ((match mode with S.A "ok" -> false | _ -> true), List.map item_of items)
+           | x -> failwith ("schema: bad doc " ^ S.to_string x)) ds)
+    | _ -> failwith "c17: input" in
+  let results = Model.loads_m [] docs in
+  if List.exists (fun (acc, _) -> not acc) results then
+    (S.L [S.A "load-failed"], (match observed with S.L (S.A "load-failed" :: _) -> "holds-load-refused-by-both" | _ -> "fails:model-refuses-a-load"))
+  else begin
+    let st = match List.rev results with (_, st) :: _ -> st | [] -> [] in
+    let sch = s_jt (Model.schema_answer st incl) in
+    let lks = List.map (fun nm -> s_jt (Model.type_answer st incl nm)) lookups in
+    let expected = S.L [S.A "answer"; sch; S.L [S.A "errors"; S.of_int 0]; S.L (S.A "lookups" :: lks)] in
+    let verdict =
+      match observed with
+      | S.L [S.A "answer"; osch; S.L [S.A "errors"; nerr; _]; S.L (S.A "lookups" :: olks)] ->
+        if S.int nerr <> 0 then "fails:introspection-reports-errors"
+        else begin
+          match sch, osch with
+          | S.L [S.A "o"; q; m; s; S.L (S.A "l" :: ets); eds], S.L [S.A "o"; oq; om; os; S.L (S.A "l" :: ots); ods] ->
+            if S.to_string (S.L [q; m; s]) <> S.to_string (S.L [oq; om; os]) then "fails:introspection-differs:operation-roots"
+            else if List.length ets <> List.length ots then "fails:introspection-differs:type-list"
+            else begin
+              match List.find_opt (fun (e, o) -> S.to_string e <> S.to_string o) (List.combine ets ots) with
+              | Some (e, o) -> "fails:introspection-differs:type:" ^ type_diff e o
+              | None ->
+                if S.to_string eds <> S.to_string ods then "fails:introspection-differs:directives"
+                else if List.length lks <> List.length olks then "fails:introspection-differs:lookups"
+                else match List.find_opt (fun (e, o) -> S.to_string e <> S.to_string o) (List.combine lks olks) with
+                  | Some (e, o) -> "fails:introspection-differs:__type:" ^ type_diff e o
+                  | None -> "holds"
+            end
+          | _ -> "fails:introspection-differs:shape"
+        end
+      | S.L (S.A "panic" :: _) -> "fails:introspection-panicked"
+      | S.L (S.A "load-failed" :: _) -> "fails:accepted-schema-refused"
+      | _ -> "fails:introspection-differs:shape" in
+    (expected, verdict)
+  end
